@@ -20,6 +20,7 @@ const modulePath = "github.com/anz-bank/sysl"
 
 type Engine struct {
 	repo      string
+	modPath   string
 	prog      *ssa.Program
 	pkgs      []*packages.Package
 	spkgs     map[string]*ssa.Package
